@@ -273,6 +273,13 @@ def explore_program(label, builder, res, cap, interp=None, alphabets=None, desc=
         return None
 
     def pre_check(c):
+        if interp is not None and interp.p['kind'] == 'propagate':
+            # at power-up the combinational body has run once with all inputs 0: same domain rule as for any step
+            try:
+                interp.run(0, 0, None)
+            except progen.OutOfDomain:
+                res['pruned'] += 1
+                return None
         a = [w.get() for w in c.out_wires]
         b = [c.v.peek(n) for n in c.out_names]
         if a != b:
